@@ -291,5 +291,15 @@ func updateOperandProblem(p *ragen.Program, generated string) string {
 	if line[end:] != "\" \\" {
 		return "text follows the closing quote of the operand"
 	}
+	// the operand is now what generate prints: compare must read exactly that back, and a second update
+	// (whose "old" operand is the generated text with all its escaped quotes) must leave the file alone
+	cmp := cli.Run(cli.Opt{Dir: sb.Root, Timeout: 30 * time.Second}, "-d", root, "regex", "compare", "932100")
+	if cmp.Exit != 0 || !strings.Contains(cmp.Stdout, "has not changed") {
+		return fmt.Sprintf("compare right after update reads another operand back than update wrote (exit %d)", cmp.Exit)
+	}
+	r2 := cli.Run(cli.Opt{Dir: sb.Root, Timeout: 30 * time.Second}, "-d", root, "regex", "update", "932100")
+	if again := sb.Read("crs/rules/REQUEST-932-X.conf"); r2.Exit != 0 || again != text {
+		return "a second update rewrites the rule line differently (the operand written first is not read back as one operand)"
+	}
 	return ""
 }
